@@ -232,7 +232,20 @@ func (r *Resolver) AutoTA() {
 			continue
 		}
 		tag := dnssec.KeyTag(dnskey)
-		if _, exists := kskCurrent[tag]; exists {
+		if existing, exists := kskCurrent[tag]; exists {
+			// The operator has since configured a key this state file was
+			// still holding down. It is an anchor of record now, and it has
+			// to be one in state too: NewResolver already trusts it, and a
+			// revocation of a merely pending key is dropped without a
+			// tombstone — after which this loop would re-admit the revoked
+			// key from configuration on the next run.
+			if (existing.State == StateAddPend || existing.State == StateStart) &&
+				dnskey.Flags&DNSKEYFlagRevoke == 0 &&
+				existing.DNSKey != nil && existing.DNSKey.Flags == dnskey.Flags &&
+				dnskeyMaterialFP(existing.DNSKey) == dnskeyMaterialFP(dnskey) {
+				zlog.Info("Admin-configured trust anchor was pending in state — now valid", "keytag", tag)
+				existing.State = StateValid
+			}
 			continue
 		}
 		// Tombstone check by key material. RFC 5011 §2.1 requires
